@@ -373,7 +373,7 @@ class ScriptedHandler(RequestHandler):
         self.setup_calls.append((nb(data_encoding), nb(metadata_encoding), pkey(payload)))
         self.world.log('on_setup', who=self._who())
         if 'on_setup' in self.raise_in:
-            raise RuntimeError('on_setup raises')
+            raise getattr(self, 'raise_exc', None) or RuntimeError('on_setup raises')
 
     async def on_metadata_push(self, payload):
         iid = self._deliver_request('push', payload)
